@@ -536,6 +536,9 @@ inline int run(int argc, char** argv, const std::vector<Stream>& streams) {
       s.fn(g - lo, r);
       status().in_case = 0;
       per_stream[sid]++;
+      // an actual case of every stream goes into the evidence: the last witness the harness published
+      if (per_stream[sid] <= 2 && status().wlen && want_sample("stream:" + s.name))
+        sample("stream:" + s.name, printable(std::string(status().witness, status().wlen), 300));
     }
   }
   alarm(0);
